@@ -30,6 +30,11 @@ def scenes():
     <body name="s2" pos="1.2 0 0.1"><freejoint/><geom type="sphere" size="0.1"/></body>
     <body name="p" pos="2 0 0.5"><joint type="hinge" axis="0 1 0" damping="0.5"/><geom type="capsule" fromto="0 0 0 0 0 -0.3" size="0.03"/></body></worldbody>
     <equality><connect body1="s0" body2="s1" anchor="0.25 0 0"/></equality></mujoco>"""
+  # three far-apart trees that fall asleep; each is then woken by a different cause (pure torque / generalized force / force), see _record_chunk
+  s["causes"] = """<mujoco><option timestep="0.005"><flag sleep="enable"/></option><worldbody><geom type="plane" size="5 5 .1"/>
+    <body name="c0" pos="0 0 0.1"><freejoint/><geom type="box" size="0.1 0.1 0.1"/><body pos="0 0 0.25"><joint type="hinge" axis="0 1 0" damping="0.5"/><geom type="capsule" fromto="0 0 0 0 0 0.2" size="0.03"/></body></body>
+    <body name="c1" pos="1.5 0 0.1"><freejoint/><geom type="sphere" size="0.1"/></body>
+    <body name="c2" pos="3 0 0.1"><freejoint/><geom type="box" size="0.1 0.1 0.1"/></body></worldbody></mujoco>"""
   return s
 
 
@@ -110,19 +115,39 @@ def _record_chunk(args):
   mjd = mujoco.MjData(mjm)
   lock = []
   rng = np.random.default_rng(seed)
-  kick_tree = int(rng.integers(ntree))
+  # the pushed tree: chosen so that it lifts off and lands on a sleeping neighbour (a wake-up through contact) where the scene allows it
+  kick_tree = {"box_slider_friction": 1, "stack3": 2}.get(name.split("/")[0], int(rng.integers(ntree)))
   try:
     for k in range(nsteps):
       # events in world 1 only (and in the MuJoCo twin of world 1): a push for 5 steps, later a velocity kick
       x = np.zeros((nworld, mjm.nbody, 6), dtype=np.float32)
-      if nsteps // 2 <= k < nsteps // 2 + 5:
+      qf = np.zeros((nworld, mjm.nv), dtype=np.float32)
+      mjd.xfrc_applied[:] = 0
+      mjd.qfrc_applied[:] = 0
+      if name.startswith("causes"):
+        # once everything sleeps: a pure torque on the LAST body of tree 0, a generalized force on tree 1, a force on tree 2, each for 3 steps
+        for cause, k0 in enumerate((nsteps // 2, nsteps // 2 + 30, nsteps // 2 + 60)):
+          if k0 <= k < k0 + 3:
+            bodies_k = np.nonzero(body_tree == cause)[0]
+            if cause == 0:
+              b = int(bodies_k[-1])
+              x[1, b, 3:] = [0.0, 0.6, 0.4]
+              mjd.xfrc_applied[b, 3:] = [0.0, 0.6, 0.4]
+            elif cause == 1:
+              dk = int(np.nonzero(dof_tree == 1)[0][-1])
+              qf[1, dk] = 1.5
+              mjd.qfrc_applied[dk] = 1.5
+            else:
+              b = int(bodies_k[0])
+              x[1, b, :3] = [1.0, 0.0, 0.0]
+              mjd.xfrc_applied[b, :3] = [1.0, 0.0, 0.0]
+      elif nsteps // 2 <= k < nsteps // 2 + 5:
         b = int(np.nonzero(body_tree == kick_tree)[0][0])
         x[1, b, :3] = [3.0, 0.0, 8.0]
         mjd.xfrc_applied[b, :3] = [3.0, 0.0, 8.0]
-      else:
-        mjd.xfrc_applied[:] = 0
       wp.copy(d.xfrc_applied, wp.array(x, dtype=wp.spatial_vector))
-      if k == (3 * nsteps) // 4:
+      wp.copy(d.qfrc_applied, wp.array(qf, dtype=float))
+      if k == (3 * nsteps) // 4 and not name.startswith("causes"):
         v = d.qvel.numpy()
         dofs = np.nonzero(dof_tree == (kick_tree + 1) % ntree)[0]
         v[1, dofs[0]] = 0.5
